@@ -10,16 +10,21 @@
    kind of API per history.  [picks] resolves Python's set iteration order (which of several usable
    ports _create_socks_endpoint returns); every theorem holds for every resolution.
 
+   A request is a SocksPort line: a port (first word only) or a whole line with option words.
+   The entry asked for is the one that IS that line, byte for byte, or whose first word is the
+   request; for a request with other option words than the configured line of the same port the
+   oracle allows both using that line and adding the requested one.
+
    The second line is proved as stated (C18_client_fallback).  The model follows /repo after the
-   repairs 5de976f (C18-F1), 73db4d4 (C18-F2), 9344c47 (C18-F3): on those three input classes the
-   statements below are now full.  The first line is still FALSE of the faithful model on the input
-   class of the one open finding C18-F4 (a TorConfig call made after Tor refused a SETCONF of an
-   earlier call; witness C18_cfg_call_after_refused_setconf_refuted); what is proved for ALL
-   histories of the envelope is
-     * C18_every_call_ok_or_known: every call satisfies all clauses of the oracle, or is a TorConfig
-       call after a refused SETCONF (so nothing else can hide behind the finding);
+   repairs 5de976f (C18-F1), 73db4d4 (C18-F2), 9344c47 (C18-F3), a76a42b (C18-F5).  The first line
+   is FALSE of the faithful model on the input class of the one open finding
+     C18-F4  a TorConfig call made after Tor refused a SETCONF of an earlier call
+   (witness: C18_cfg_call_after_refused_setconf_refuted); what is proved for ALL histories of the
+   envelope is
+     * C18_every_call_ok_or_known: every call satisfies all clauses of the oracle, or is in that
+       class (so nothing else can hide behind the finding);
      * C18_oracle_holds_partial: the full statement with the extra hypothesis "no call of the
-       history is in that class", its exact complement;
+       history is in the class", its exact complement;
      * C18_listeners_never_altered: flagged or not, after the whole history Tor's configuration
        still starts with the listeners it had, byte for byte and in order (the title clause holds
        of the model without exception). *)
@@ -54,22 +59,24 @@ Proof. exact oracle_keeps_listeners. Qed.
 Print Assumptions C18_oracle_implies_listeners_kept.
 
 (* ---- one call of _create_socks_endpoint, spelled out (DESIGN: C18_existing_preserved,
-   C18_use_means_no_setconf, C18_use_only_if_usable).  Either nothing but GETCONF is written and the
-   result is the endpoint of a usable entry (never a port-0 line) with Tor left as it was; or no
-   entry is usable and exactly one SETCONF follows the queries which, read with Tor's grammar, is
-   every listener entry Tor reported, byte for byte and in order, then the new port.
-   Full since 5de976f (an unset SocksPort without a default line is "no entries"). *)
+   C18_use_means_no_setconf, C18_use_only_if_usable).  [same_port] is the request reduced to its
+   first word.  Either nothing but GETCONF is written and the result is the endpoint of a usable
+   entry for that port (never a port-0 line) with Tor left as it was; or no usable entry has that
+   first word (so none is the one asked for) and exactly one SETCONF follows the queries which, read
+   with Tor's grammar, is every listener entry Tor reported, byte for byte and in order, then the new
+   line.  Full (since a76a42b also for requests with option words). *)
 Theorem C18_create_existing_preserved : forall t o pick,
   tor_ok t -> dflt_le1 t -> wf_op o = true ->
   let r := choose t (o_want o) (o_avail o) (o_accept o) pick in
+  let same_port := option_map first_word (o_want o) in
   (exists e, sent (fst r) = queries t /\ out (fst r) = OEp e
-             /\ In e (usable_eps (o_want o) (entries t)) /\ snd r = t)
+             /\ In e (usable_eps same_port (entries t)) /\ snd r = t)
   \/
-  (usable_eps (o_want o) (entries t) = [] /\
+  (usable_eps same_port (entries t) = [] /\ usable_eps (o_want o) (entries t) = [] /\
    exists s, sent (fst r) = queries t ++ [s] /\ is_setconf s = true /\
      decode_setconf s = Some (map (fun v => (tx key_setconf, v)) (listeners t ++ [new_line o])) /\
      (o_accept o = true ->
-        exists e, out (fst r) = OEp e /\ addr_of (new_line o) = Some e
+        exists e, out (fst r) = OEp e /\ addr_of (first_word (new_line o)) = Some e
                   /\ snd r = {| sp := RVals (listeners t ++ [new_line o]); dflt := dflt t |}) /\
      (o_accept o = false -> (exists n, out (fst r) = OErr n) /\ snd r = t)).
 Proof. exact create_cases. Qed.
@@ -112,6 +119,22 @@ Print Assumptions C18_line_to_endpoint.
 Theorem C18_cfg_call_after_refused_setconf_refuted : refutes w_f4_tor w_f4_ops.
 Proof. exact f4_refuted. Qed.
 Print Assumptions C18_cfg_call_after_refused_setconf_refuted.
+
+(* regression anchor of the repaired C18-F5: the former witness is accepted, only GETCONF is written *)
+Theorem C18_create_full_line_already_configured_now_accepted :
+  wf_hist w_f5_tor w_f5_ops = true /\
+  run w_f5_tor w_f5_ops [] = [{| sent := [tx "GETCONF SOCKSPort"]; out := OEp (EpTcp LOCALHOST 9150) |}] /\
+  oracle_hist w_f5_tor w_f5_ops (run w_f5_tor w_f5_ops []) = true.
+Proof. exact f5_now_accepted. Qed.
+Print Assumptions C18_create_full_line_already_configured_now_accepted.
+
+(* the same whole-line request through TorConfig.create_socks_endpoint is served from the existing
+   line, nothing is written (this is what the seeded change C18-s2 broke) *)
+Theorem C18_cfg_full_line_request_uses_existing :
+  run w_f5_tor [mkop ACfgCreate (Some (tx "9150 IPv6Traffic PreferIPv6")) true] []
+  = [{| sent := []; out := OEp (EpTcp LOCALHOST 9150) |}].
+Proof. exact full_line_request_cfg. Qed.
+Print Assumptions C18_cfg_full_line_request_uses_existing.
 
 (* the witnesses of the three repaired findings are accepted now *)
 Theorem C18_repaired_witnesses_hold :
